@@ -89,6 +89,11 @@ NORMAL_TIMING = {"timing_publish_next_hours": 24,
                  "timing_roa_reissue_weeks_before": 4}
 
 
+SHORT_TIMING = dict(NORMAL_TIMING, timing_publish_next_hours=12)
+MARGIN_HOURS = 18
+MARGIN_TIMING = dict(NORMAL_TIMING, timing_publish_hours_before_next=MARGIN_HOURS)
+
+
 def add_timing(beh):
     """RestartDue / RestartNormal carry the timing values to restart with:
     margins larger than the lifetimes make everything due."""
@@ -97,6 +102,9 @@ def add_timing(beh):
             a["timing"] = DUE_TIMING
         elif a.get("a") == "RestartNormal":
             a["timing"] = NORMAL_TIMING
+        elif a.get("a") == "RestartMargin":
+            a["timing"] = MARGIN_TIMING
+            
 
 
 def model_runs(chk, tier, cfgs=None, needed=None):
@@ -134,7 +142,12 @@ def generate(chk, themes, num, depth, seed):
         # timing values at a random point of a "life" behaviour, tasks pumped
         # and normal values restored at a later point; restarts are no-ops
         # of the model, so they can be put anywhere)
-        src = "life" if theme == "tduring" else theme
+        # "tstag": key sets with different next-update times (a restart
+        # with a shorter manifest lifetime early in a "roll" behaviour),
+        # then a maintenance run under a margin between the two lifetimes:
+        # exactly the CAs with a key set (current, staging or old) inside
+        # the margin re-issue, all their sets together
+        src = {"tduring": "life", "tstag": "roll"}.get(theme, theme)
         got = vlib.generate_behaviours(
             "MC_Krill_gen", f"MC_Krill_gen_{src}.cfg", chk.out, num=num,
             depth=150, seed=seed * 31 + i, drop_last=False, timeout=900)
@@ -153,6 +166,24 @@ def generate(chk, themes, num, depth, seed):
                 hi = rnd.randrange(lo + 2, len(acts))
                 acts = (acts[:lo] + [{"a": "RestartDue"}] + acts[lo:hi]
                         + [{"a": "Pump"}, {"a": "RestartNormal"}] + acts[hi:])
+            if theme == "tstag":
+                first = next((k for k, a in enumerate(acts)
+                              if a.get("a") == "Settle"), 0) + 1
+                acts = (acts[:first]
+                        + [{"a": "Restart", "timing": SHORT_TIMING}]
+                        + acts[first:]
+                        + [{"a": "Mark"}, {"a": "RestartMargin"},
+                           {"a": "RepublishByMargin",
+                            "margin": MARGIN_HOURS * 3600},
+                           {"a": "Pump"}, {"a": "RestartNormal"},
+                           {"a": "ExpectByMargin",
+                            "margin": MARGIN_HOURS * 3600},
+                           {"a": "Settle"}])
+            if theme == "agg":
+                # route origins are aggregated per origin AS from two
+                # authorisations on and split again below two
+                b["agg"] = 2
+                b["deagg"] = 2
             b["actions"] = acts
             b["theme"] = theme
             add_timing(b)
